@@ -1,4 +1,5 @@
 import Generated.GoGSort
+import Generated.GSortTmpl
 import Model.GSortText
 import Lemmas.GoLoop
 import Properties.C07Tie
@@ -271,4 +272,158 @@ theorem go_validate_eq (s : List GSFD) :
       simp only [C07Tie.go_add_eq, pure_bind, SetM.add, List.foldl_cons, List.foldl_nil, SetM.addStep, valStep]
       by_cases hm : fd.Priority ∈ SetM.elems st <;> simp [hm]
 
-end C08Tie
+/-! ### the template: `PriorityBlock` and the body of `Less`, as extracted from gsort.gotmpl -/
+
+/-- what a template of gsort.gotmpl is executed on: a `SorterDesc` (with what it takes from outside),
+or a `*CompareLine` in the heap `PriorityTree` built -/
+inductive Dot where
+  | desc (env : GEnv) (sd : Generated.GoGSort.SorterDesc)
+  | line (h : Go.Heap GCL) (p : Go.Ptr)
+
+def optM {α : Type} : Go.M α → Option α
+  | .ok a => some a
+  | .error _ => none
+
+/-- text/template's field lookup on those values: a name is the exported field or the method of that
+name - the methods being the TRANSLATED ones; a method on a pointer receiver dereferences it -/
+def goData : TmplAst.Data Dot where
+  print := fun d f => match d with
+    | .line h p =>
+      if f = "Accessor" then optM (do let c ← Go.load h p; pure c.Accessor)
+      else if f = "String" then optM (do let c ← Go.load h p; Generated.GoGSort.CompareLine.String c)
+      else none
+    | .desc _ _ => none
+  truth := fun d f => match d with
+    | .line h p =>
+      if f = "HasNest" then optM (do let c ← Go.load h p; Generated.GoGSort.CompareLine.HasNest c) else none
+    | .desc _ _ => none
+  sub := fun d f => match d with
+    | .line h p => if f = "Nest" then optM (do let c ← Go.load h p; pure (Dot.line h c.Nest)) else none
+    | .desc env sd =>
+      if f = "PriorityTree" then
+        optM (do let r ← Generated.GoGSort.SorterDesc.PriorityTree env sd; pure (Dot.line r.1 r.2))
+      else none
+
+theorem gd_print_accessor (pre : List GCL) (c : GCL) (post : List GCL) :
+    goData.print (.line (pre ++ c :: post) (some pre.length)) "Accessor" = some c.Accessor := by
+  simp [goData, load_at, optM, pure, Except.pure, bind, Except.bind]
+
+theorem gd_print_string (pre : List GCL) (c : GCL) (post : List GCL) :
+    goData.print (.line (pre ++ c :: post) (some pre.length)) "String" = some (retOf c.IsBool c.Accessor).text := by
+  simp [goData, load_at, optM, go_compareLine_string_eq, pure, Except.pure, bind, Except.bind]
+
+theorem gd_truth_hasNest (pre : List GCL) (c : GCL) (post : List GCL) :
+    goData.truth (.line (pre ++ c :: post) (some pre.length)) "HasNest" = some c.Nest.isSome := by
+  simp [goData, load_at, optM, go_hasNest_eq, pure, Except.pure, bind, Except.bind]
+
+theorem gd_sub_nest (pre : List GCL) (c : GCL) (post : List GCL) :
+    goData.sub (.line (pre ++ c :: post) (some pre.length)) "Nest" = some (.line (pre ++ c :: post) c.Nest) := by
+  simp [goData, load_at, optM, pure, Except.pure, bind, Except.bind]
+
+/-- number of cells of a chain -/
+def depth : GSort.CompareLine → Nat
+  | .last _ _ => 1
+  | .nest _ _ n => depth n + 1
+
+/-- executing `PriorityBlock` on a chain laid out in the heap writes the text of the model's block -/
+theorem render_block (c : GSort.CompareLine) : ∀ (pre : List GCL) (fuel : Nat),
+    TmplAst.renderTmpl Generated.GSortTmpl.defs goData (fuel + depth c) "PriorityBlock"
+        (.line (pre ++ layout pre.length c) (some pre.length))
+      = some (priorityBlock c).text := by
+  induction c with
+  | last b a =>
+    intro pre fuel
+    simp [depth, TmplAst.renderTmpl, Generated.GSortTmpl.defs, Generated.GSortTmpl.tmpl0, TmplAst.renderList,
+      TmplAst.renderNode, layout, gd_print_accessor, gd_print_string, gd_truth_hasNest, gd_sub_nest,
+      priorityBlock, blockWith, Cmp.text]
+  | nest b a n ih =>
+    intro pre fuel
+    have ih' := ih (pre ++ [⟨b, a, some (pre.length + 1)⟩]) fuel
+    simp only [List.length_append, List.length_cons, List.length_nil, List.append_assoc, List.cons_append,
+      List.nil_append, Nat.zero_add] at ih'
+    have hd : fuel + depth (.nest b a n) = (fuel + depth n) + 1 := rfl
+    rw [hd]
+    simp [TmplAst.renderTmpl, Generated.GSortTmpl.defs, Generated.GSortTmpl.tmpl0, TmplAst.renderList,
+      TmplAst.renderNode, layout, gd_print_accessor, gd_print_string, gd_truth_hasNest, gd_sub_nest, ih',
+      priorityBlock, blockWith, Cmp.text, String.append_assoc]
+    rw [← String.append_assoc]; rfl
+
+/-- **rendering the extracted template on the translated tree = the text of the model's chain.**
+The body of `Less` as gsort.gotmpl writes it for a sorter description, every method it consults being
+the translated one, is the Go text of `priorityBlock (priorityTree fields)`. -/
+theorem go_render_eq_genChain (env : GEnv) (hs : SortContract env.sortSort) (sd : Generated.GoGSort.SorterDesc)
+    (hn : (sd.Fields.map (·.Priority)).Nodup) (fuel : Nat) :
+    TmplAst.render Generated.GSortTmpl.defs goData (fuel + depth (priorityTree (sd.Fields.map toModel)))
+        (.desc env sd) Generated.GSortTmpl.lessBody
+      = some (priorityBlock (priorityTree (sd.Fields.map toModel))).text := by
+  have hb := render_block (priorityTree (sd.Fields.map toModel)) [] fuel
+  simp only [List.nil_append, List.length_nil] at hb
+  have hsub : goData.sub (.desc env sd) "PriorityTree"
+      = some (.line (layout 0 (priorityTree (sd.Fields.map toModel))) (some 0)) := by
+    simp [goData, go_priorityTree_eq env hs sd hn, optM, pure, Except.pure, bind, Except.bind]
+  simp [TmplAst.render, Generated.GSortTmpl.lessBody, TmplAst.renderList, TmplAst.renderNode, hsub, hb]
+
+/-! ### the headline statement, for the translated functions and the extracted template -/
+
+theorem depth_chainOf : ∀ l : List SFD, l ≠ [] → depth (chainOf l) = l.length
+  | [], h => absurd rfl h
+  | [_], _ => rfl
+  | f :: g :: rest, _ => by
+    have := depth_chainOf (g :: rest) (by simp)
+    simp [chainOf, depth, this]
+
+variable {V : Type} [DecidableEq V]
+
+/-- **C08 for the code as translated.**  Take any sorter description whose fields the TRANSLATED
+`Validate` accepts, and any `sort.Sort` that keeps its contract with the generated `Less` of
+`SortFieldDescs`.  Then executing the `Less` part of gsort.gotmpl (as extracted from /repo) with the
+TRANSLATED `PriorityTree`, `HasNest` and `String` succeeds and writes the Go text `c.text` of a
+comparison chain `c` that, on all well-typed slice elements, IS lexicographic comparison of the tagged
+fields / accessor results in ascending priority, false before true. -/
+theorem go_less_eq_lex (lt : V → V → Bool) (hirr : ∀ v, lt v v = false)
+    (env : GEnv) (hs : SortContract env.sortSort) (sd : Generated.GoGSort.SorterDesc)
+    (hv : Generated.GoGSort.SortFieldDescs.Validate sd.Fields = pure none) :
+    ∃ c : Cmp,
+      (∀ fuel, TmplAst.render Generated.GSortTmpl.defs goData (fuel + sd.Fields.length) (.desc env sd)
+          Generated.GSortTmpl.lessBody = some c.text) ∧
+      ∀ ks : List Key,
+        (∃ l : List SFD, l.Perm (sd.Fields.map toModel) ∧
+          l.Pairwise (fun x y => x.priority < y.priority) ∧ ks = l.map keyOf) →
+        ∀ a b : Rec V, WellTyped ks a → WellTyped ks b → c.eval lt a b = lex lt ks a b := by
+  have hval : validate (sd.Fields.map toModel) = .ok () := by
+    rw [go_validate_eq] at hv
+    cases h : validate (sd.Fields.map toModel) with
+    | ok u => rfl
+    | error e => rw [h] at hv; simp [errOf, pure, Except.pure] at hv
+  obtain ⟨hne, hnd⟩ := (validate_ok_iff _).1 hval
+  have hpri : (sd.Fields.map toModel).map (·.priority) = sd.Fields.map (·.Priority) := by
+    simp [toModel, List.map_map, Function.comp_def]
+  have hn : (sd.Fields.map (·.Priority)).Nodup := hpri ▸ hnd
+  have hsne : sortP (sd.Fields.map toModel) ≠ [] := by
+    intro e
+    have := sortP_perm (sd.Fields.map toModel)
+    rw [e] at this
+    exact hne this.nil_eq.symm
+  refine ⟨priorityBlock (priorityTree (sd.Fields.map toModel)), ?_, ?_⟩
+  · intro fuel
+    have hd : depth (priorityTree (sd.Fields.map toModel)) = sd.Fields.length := by
+      unfold priorityTree
+      rw [depth_chainOf _ hsne, (sortP_perm _).length_eq, List.length_map]
+    rw [← hd]
+    exact go_render_eq_genChain env hs sd hn fuel
+  · rintro ks ⟨l, hl, hlt, rfl⟩ a b ha hb
+    have hsn : ((sortP (sd.Fields.map toModel)).map (·.priority)).Nodup :=
+      (((sortP_perm _).map (·.priority)).nodup_iff).2 hnd
+    have e : l = sortP (sd.Fields.map toModel) :=
+      sorted_unique l _ (hl.trans (sortP_perm _).symm) hlt
+        (pairwise_lt_of_le_nodup _ (sortP_pairwise_le _) hsn)
+    subst e
+    exact eval_chainOf_eq_lex lt hirr _ hsne a b ha hb
+
+/-- non-vacuity: a description the translated `Validate` accepts, with a bool as last key and an
+accessor, and a `sort.Sort` that keeps the contract -/
+example : SortContract sortModel ∧
+    Generated.GoGSort.SortFieldDescs.Validate
+      [⟨"Name", "string", "", "ByName", 2⟩, ⟨"Kind", "Kind", "String()", "ByName", 1⟩, ⟨"Done", "bool", "", "ByName", 3⟩]
+      = pure none :=
+  ⟨sortModel_contract, by rw [go_validate_eq]; simp [validate, toModel, errOf]⟩
